@@ -351,10 +351,10 @@ Print Assumptions wrapper_ignored_command_bypasses.
 
 (* which outcomes are failures, per wrapper *)
 Theorem wrapper_acceptability_table :
-  (forall d, codes_acceptable d = false <-> exists c, d = DStatus c /\ grpc_failure_code c = true) /\
+  (forall d, codes_acceptable d = false <-> d = DStallTimeout \/ exists c, d = DStatus c /\ grpc_failure_code c = true) /\
   (forall d, server_acceptable d = false <->
      d = DCtxDeadline \/ d = DBreakerUnavailable \/ d = DWrappedDeadline \/ d = DWrappedBreakerUnavailable \/
-     exists c, d = DStatus c /\ grpc_failure_code c = true) /\
+     d = DStallTimeout \/ exists c, d = DStatus c /\ grpc_failure_code c = true) /\
   (forall d, redis_acceptable d = true <->
      d = DNil \/ d = DRedisNil \/ d = DWrappedRedisNil \/ d = DCtxCanceled \/ d = DWrappedCanceled) /\
   (forall d, sql_acceptable d = true <->
@@ -401,6 +401,20 @@ Theorem rest_resolves_exactly_once : forall rej h,
                   (rr_succ r = 1 <-> h_code h < 500)).
 Proof. exact rest_once. Qed.
 Print Assumptions rest_resolves_exactly_once.
+
+(* REST through the chain the engine builds inside the breaker (Timeout, Recover, handler): the
+   status BreakerHandler judges.  A timed-out request is a failure whatever the handler had
+   already sent (written, flushed: an implicit 200 on the wire), a request the client cancelled
+   is not; without TimeoutHandler the LAST status set decides (103 then 500 is a failure); a
+   recovered panic is a 500; behind TimeoutHandler the handler's first status is handed on. *)
+Theorem rest_chain_outcomes :
+  (forall rec ops, rest_accepts (HScript (ChTimeout rec) ops HStallTimeout) = false) /\
+  (forall rec ops, rest_accepts (HScript (ChTimeout rec) ops HStallCancel) = true) /\
+  (forall rec ops c, h_code (HScript (ChPlain rec) (ops ++ [HWriteHeader c]) HReturn) = c) /\
+  (forall ops, h_code (HScript (ChPlain true) ops HPanicEnd) = 500) /\
+  (forall rec c ops, h_code (HScript (ChTimeout rec) (HWriteHeader c :: ops) HReturn) = c).
+Proof. exact rest_chain_table. Qed.
+Print Assumptions rest_chain_outcomes.
 
 Theorem rest_is_allow_entry_point : forall cfg w r,
   let c := rest_call r in
